@@ -9,3 +9,10 @@ CHECKS = {
   "note": "Trusts the dict model in props/c02.py and numpy's own indexing (np.arange(n)[idx]) as the meaning of an index; self-bonds and wrong-length masks are outside the alphabet; compiled behaviour is taken from the generated C next to bonds.pyx.",
  },
 }
+CHECKS["C20"] = {
+  "engine": "E3-tlc-conformance",
+  "technique": "TLC explicit-state model checking of tla/AppLifecycle.tla + conformance replay of every model-enabled core call sequence (simulation over the dumped state graph) on the real wrapper classes with a gated fake executable",
+  "ref": "DESIGN.md section 4 C20",
+  "text": "TLC explores the life-cycle model completely (all tool behaviours; invariants: clean-up exactly once at run end, nothing left behind, results only after a good run). Every sequence of core calls (start/join/join(timeout)/cancel/get_app_state/release) of length <= 4 (quick) / 5-6 (thorough) that the model enables is replayed on 6 wrapper classes x up to 7 tool behaviours; after each step the observation (outcome class, stored flag, clean-up count, temp files, child liveness, cwd) must match a model successor, and all 12 probe (getter/setter) transitions are checked at every visited state. Results of successful runs are compared with the fake tool's output for every small input set.",
+  "note": "Trusts the TLA+ model as the reading of the documented life cycle, the deterministic fake tool, and /proc for child liveness; real tools and OS-level races are outside. Time enters only through join(timeout=0.05 s) against a child provably blocked on a gate file.",
+}
